@@ -15,8 +15,9 @@ rsync -a --exclude .git "$REPO"/ "$W/repo/" || fail "copy"
 mkdir -p "$W/repo/verifsim" && cp $V/tools/verifsim/*.go $V/tools/verifsim/*.s "$W/repo/verifsim/" || fail "inject verifsim"
 cp $V/tools/inject/root_verif_export.go "$W/repo/verif_export.go" || fail "inject"
 cp $V/tools/inject/sqlite_verif_export.go "$W/repo/handler/sqlite/verif_export.go" || fail "inject"
-NOYIELD="${VERIF_NOYIELD:-message.go,nip11.go,server.go,event_matcher.go,query.go,migrate.go,logger.go,verif_export.go}"
-(cd "$W/repo" && $V/bin/instrument -dir "$W/repo" -noyield "$NOYIELD" . ./handler/sqlite ./middleware/prometheus) >"$W/instrument.log" 2>&1 || { cat "$W/instrument.log" >&2; fail "instrument (tree does not type-check?)"; }
+NOYIELD="${VERIF_NOYIELD:-message.go,nip11.go,server.go,query.go,migrate.go,logger.go,verif_export.go}"
+YIELDFUNCS="${VERIF_YIELDFUNCS:-message.go:Verify,message.go:Serialize}"
+(cd "$W/repo" && $V/bin/instrument -dir "$W/repo" -noyield "$NOYIELD" -yieldfuncs "$YIELDFUNCS" . ./handler/sqlite ./middleware/prometheus) >"$W/instrument.log" 2>&1 || { cat "$W/instrument.log" >&2; fail "instrument (tree does not type-check?)"; }
 mkdir -p "$W/sim" && cp -r $V/sim/. "$W/sim/" || fail "copy sim"
 [ -f "$W/sim/go.sum" ] || cp "$REPO/go.sum" "$W/sim/go.sum"
 (cd "$W/sim" && go test -c -trimpath -overlay $V/build/rt/overlay.json -o "$W/sim.test" ./props) >"$W/build.log" 2>&1 || { cat "$W/build.log" >&2; fail "go test -c"; }
